@@ -22,10 +22,13 @@ pub enum CkOp {
 }
 
 fn gen_vec(s: &mut Choices) -> Vec<u8> {
-    let n = match s.below(6) {
+    let n = match s.below(8) {
         0 => 0,
         1 => 1,
         2 => 255 + s.below(4) as usize,
+        // long slices: a wide-lane accumulation only overflows after hundreds of heavy bytes
+        3 => 500 + s.below(1600) as usize,
+        4 => 4090 + s.below(12) as usize,
         _ => s.below(40) as usize,
     };
     let mode = s.below(3);
@@ -208,6 +211,39 @@ pub fn run(ctx: &Ctx) {
     vs.dedup_by_key(|v| v.sig());
     ctx.report("c17.table", json!({"case": []}), vs);
     ctx.add_sample(json!({"table": "state s, byte b: add/sub/append/delete/sink-byte"}));
+    // slices of every length 0..=2100 (and 4096, 65536, 70001) of heavy fill bytes, through
+    // append, delete and the sink's vec entry
+    let mut lens: Vec<usize> = (0..=2100).collect();
+    lens.extend([4095usize, 4096, 4097, 65_535, 65_536, 70_001]);
+    let mut m = 0u64;
+    let mut lv = Vec::new();
+    for fill in [0xffu8, 0x80, 0xc1, 0x01] {
+        for &n in &lens {
+            let data = vec![fill; n];
+            let want = ((fill as u64 * n as u64) % 256) as u8;
+            let mut c = Checksum::default();
+            c.append(&data);
+            if c.raw_value() != want {
+                lv.push(vio("accumulator", "append-long-slice".into(), format!("fill={:#x} len={} raw={} want={}", fill, n, c.raw_value(), want)));
+            }
+            c.delete(&data);
+            if c.raw_value() != 0 {
+                lv.push(vio("inverse", "append-delete-long-slice".into(), format!("fill={:#x} len={}", fill, n)));
+            }
+            let mut c = Checksum::default();
+            AmlSink::vec(&mut c, &data);
+            if c.raw_value() != want {
+                lv.push(vio("accumulator", "sink-vec-long-slice".into(), format!("fill={:#x} len={}", fill, n)));
+            }
+            m += 3;
+        }
+    }
+    ctx.add_evals(m);
+    ctx.add_subdomain("append / delete / sink vec of every slice length 0..=2100 (+4096, 65536) x 4 heavy fill bytes", m, true);
+    ctx.add_nontrivial_counted(m - 12);
+    lv.sort_by_key(|v| v.sig());
+    lv.dedup_by_key(|v| v.sig());
+    ctx.report("c17.table", json!({"case": []}), lv);
 
     run_pt(
         ctx,
